@@ -86,6 +86,10 @@ def gen_cases(rng, tier, per_kind=None, rho_ok=False):
             c = DL.gen_case(rng, kind, nmax=7)
             if not in_domain(c, rho_ok): continue
             cases.append(c); k += 1
+    # EXHAUSTIVE: every labelled graph on <= 3 (thorough: 4) nodes x every table of outcomes over the contacts x initial
+    # sets (the generator of harness/c12.py): every outcome of the coins
+    from . import c12
+    cases += [c for c in c12.exhaustive(rng, 3 if tier == 'quick' else 4, tier) if in_domain(c, rho_ok)]
     return cases
 
 
@@ -232,7 +236,7 @@ def run(run, tier):
         props['ok'] = props['ok'] and p['ok']; props['theorems'] += p['theorems']; props['axioms'].update(p['axioms'])
     n = sum(v.get('judged', 0) for v in per.values()); nt = sum(v.get('nontrivial', 0) for v in per.values())
     C.proof_coverage(run, props, max(n, 1), nt,
-                     'the four discrete-time simulators, random graphs <= 7 nodes incl. directed, table-driven outcomes, with/without test_recovery, 0-3 initial infected, '
+                     'the four discrete-time simulators, EXHAUSTIVE: all labelled graphs <= 3 (thorough 4) nodes x all outcome tables x initial sets; RANDOM: graphs <= 7 nodes incl. directed, table-driven outcomes, with/without test_recovery, 0-3 initial infected, '
                      '0-2 initial recovered, tmin in {0,5,-3,5/2,..}, whole-step horizons; both return modes; extracted dwf_rowsb / dinit_okb / dtx_okb / consistent_b on the outputs',
                      [], {'simulators': per})
 
